@@ -72,9 +72,13 @@ Fold2Progs == IF Tier = "thorough" THEN Fold2All ELSE SelectSeq(Fold2All, LAMBDA
 
 \* constant-condition ?: : the dead arm mentions something that is used elsewhere
 Conds == << NumN(1), NumN(0), Bin("<", NumN(2), NumN(1)), Bin("==", NumN(3), NumN(3)) >>
-Things(i) == (<< Rs, Var("a"), Call("clz32", <<Rs>>), StmtExpr(<< Set(Var("a"), Bin("+", Var("a"), NumN(1))) >>, Var("a")), Imm("s"), Load(FALSE, 32, Rs) >>)[i]
+NThings == 8
+Things(i) == (<< Rs, Var("a"), Call("clz32", <<Rs>>), StmtExpr(<< Set(Var("a"), Bin("+", Var("a"), NumN(1))) >>, Var("a")), Imm("s"), Load(FALSE, 32, Rs),
+                 \* a non-constant ?: with a statement-expression arm nested in the (possibly dropped) arm
+                 Cond(Bin(">", Rs, NumN(0)), NumN(1), StmtExpr(<< Decl(S32, "x7", Rt) >>, Bin("+", Var("x7"), NumN(1)))),
+                 Cond(Bin(">", Rs, NumN(0)), StmtExpr(<< Decl(S32, "x8", Rt) >>, Bin("+", Var("x8"), NumN(2))), Var("a")) >>)[i]
 CondProgs ==
-    Flatten([i \in 1..(Len(Conds) * 6) |->
+    Flatten([i \in 1..(Len(Conds) * NThings) |->
         LET c == Conds[((i - 1) % Len(Conds)) + 1]
             th == Things(((i - 1) \div Len(Conds)) + 1)
             pre == << Decl(S32, "a", Rt) >>
